@@ -139,9 +139,130 @@ def s_add_damaged(d):
     return t, (lambda c: c.add_object(A[2])), {k}
 
 
-SCEN = {k[2:]: v for k, v in list(globals().items()) if k.startswith('s_')}
+
+# ---- generated scenarios: rnd_<kind>_<seed>, kind in RAND_KINDS; everything is derived from the name ----
+RAND_KINDS = ['add', 'pack', 'topack', 'import', 'delete', 'clean', 'repack']
+
+
+def _rand_content(r, tag):
+    n = r.choice([0, 1, 3, 17, 60, 150])
+    if n == 0:
+        return b''
+    body = bytes([r.choice([65, 66, 67])]) * n if r.random() < 0.6 else r.randbytes(n)
+    return (b'%s|' % tag.encode() + body)[:max(n, 1)] if r.random() < 0.85 else body
+
+
+def rand_spec(name):
+    """the parameters of a generated scenario (also read by tracecheck for the program inputs)"""
+    import random
+    _, kind, seed = name.split('_', 2)
+    r = random.Random(f'{kind}:{seed}')
+    sp = {'kind': kind, 'target': r.choice([60, 100, 200, 10 ** 9]), 'prefix': r.choice([0, 1, 2]),
+          'npacked': r.randint(0, 4), 'nloose': r.randint(0, 4), 'pre_compress': r.random() < 0.5, 'seed': f'{kind}:{seed}'}
+    if kind == 'add':
+        sp['mode'] = r.choice(['new', 'dup_loose', 'dup_packed', 'stream'])
+        sp['nloose'] = max(sp['nloose'], 1)
+        sp['npacked'] = max(sp['npacked'], 1)
+    elif kind == 'pack':
+        sp.update(compress=r.choice(['true', 'false', 'auto']), clean=r.random() < 0.5, do_fsync=r.random() < 0.7, validate=r.random() < 0.7)
+        sp['nloose'] = max(sp['nloose'], 1)
+    elif kind == 'topack':
+        nh = r.random() < 0.5
+        sp.update(compress=r.random() < 0.5, nh=nh, twice=(r.random() < 0.5) if nh else True, do_fsync=r.random() < 0.7, nnew=r.randint(1, 4),
+                  nold=r.randint(0, 2), repeat=r.random() < 0.4)
+    elif kind == 'import':
+        sp.update(same=r.random() < 0.5, compress=r.random() < 0.5, tmb=r.choice([1, 40, 100, 10 ** 6]), nsrc=r.randint(1, 5), overlap=r.randint(0, 2),
+                  do_fsync=True)
+    elif kind == 'delete':
+        sp.update(ndel=r.randint(1, 3))
+        sp['npacked'] = max(sp['npacked'], 1)
+        sp['nloose'] = max(sp['nloose'], 1)
+    elif kind == 'clean':
+        sp.update(vacuum=r.random() < 0.5, pack_first=True)
+        sp['nloose'] = max(sp['nloose'], 1)
+    elif kind == 'repack':
+        sp.update(mode=r.choice(['keep', 'yes', 'no', 'auto']), ndel=r.randint(0, 2))
+        sp['npacked'] = max(sp['npacked'], 2)
+    return sp
+
+
+def rand_scenario(name):
+    import io
+    import random
+    sp = rand_spec(name)
+
+    def setup(d):
+        r = random.Random(sp['seed'] + ':content')
+        c = Container(d)
+        c.init_container(clear=True, pack_size_target=sp['target'], loose_prefix_len=sp['prefix'])
+        packed = list(dict.fromkeys(_rand_content(r, f'p{i}') for i in range(sp['npacked'])))
+        loose = [x for x in dict.fromkeys(_rand_content(r, f'l{i}') for i in range(sp['nloose'])) if x not in packed]
+        truth = {}
+        if packed:
+            truth.update(zip(c.add_objects_to_pack(packed, compress=sp['pre_compress']), packed))
+        for b in loose:
+            truth[c.add_object(b)] = b
+        kind = sp['kind']
+        targets = set()
+        if kind == 'add':
+            new = b'fresh|' + r.randbytes(r.choice([1, 20, 200]))
+            b = {'new': new, 'dup_loose': (loose or [new])[0], 'dup_packed': (packed or [new])[0], 'stream': new}[sp['mode']]
+            op = (lambda cc: cc.add_streamed_object(io.BytesIO(b))) if sp['mode'] == 'stream' else (lambda cc: cc.add_object(b))
+        elif kind == 'pack':
+            comp = {'true': True, 'false': False, 'auto': CompressMode.AUTO}[sp['compress']]
+            op = lambda cc: cc.pack_all_loose(compress=comp, clean_loose_per_pack=sp['clean'], do_fsync=sp['do_fsync'], validate_objects=sp['validate'])
+        elif kind == 'topack':
+            objs = [b'tp%d|' % i + r.randbytes(r.choice([0, 5, 80])) for i in range(sp['nnew'])] + r.sample(packed + loose, min(sp['nold'], len(packed + loose)))
+            if sp['repeat']:
+                objs = objs + objs[:1]
+            r.shuffle(objs)
+            op = lambda cc: cc.add_objects_to_pack(objs, compress=sp['compress'], no_holes=sp['nh'], no_holes_read_twice=sp['twice'], do_fsync=sp['do_fsync'])
+        elif kind == 'import':
+            d2 = tempfile.mkdtemp(prefix='verif-src', dir='/dev/shm')
+            src = Container(d2)
+            src.init_container(clear=True, hash_type='sha256' if sp['same'] else 'sha1', pack_size_target=150)
+            sobjs = [b'src%d|' % i + r.randbytes(r.choice([0, 10, 70, 200])) for i in range(sp['nsrc'])] + r.sample(packed + loose, min(sp['overlap'], len(packed + loose)))
+            ks = []
+            for b in sobjs:
+                ks.append(src.add_object(b) if r.random() < 0.5 else src.add_objects_to_pack([b], compress=r.random() < 0.5)[0])
+            op = lambda cc: cc.import_objects(ks, src, compress=sp['compress'], target_memory_bytes=sp['tmb'])
+        elif kind == 'delete':
+            ks = r.sample(sorted(truth), min(sp['ndel'], len(truth)))
+            targets = set(ks)
+            op = lambda cc: cc.delete_objects(ks)
+        elif kind == 'clean':
+            c.pack_all_loose(compress=r.random() < 0.5)
+            op = lambda cc: cc.clean_storage(vacuum=sp['vacuum'])
+        else:  # repack
+            c.pack_all_loose()
+            c.clean_storage()
+            ks = r.sample(sorted(truth), min(sp['ndel'], max(0, len(truth) - 1)))
+            c.delete_objects(ks)
+            for k in ks:
+                del truth[k]
+            op = lambda cc: cc.repack(compress_mode=CompressMode(sp['mode']))
+        c.close()
+        return truth, op, targets
+    return setup
+
+
+class _Scen(dict):
+    def __missing__(self, name):
+        if name.startswith('rnd_'):
+            return rand_scenario(name)
+        raise KeyError(name)
+
+
+class _NonDefaultFsync(set):
+    def __contains__(self, name):
+        if isinstance(name, str) and name.startswith('rnd_'):
+            return rand_spec(name).get('do_fsync', True) is False
+        return set.__contains__(self, name)
+
+
+SCEN = _Scen({k[2:]: v for k, v in list(globals().items()) if k.startswith('s_')})
 QUICK = ['add', 'add_dup', 'pack', 'pack_small', 'pack_nofsync_clean', 'pack_then_clean', 'topack_nh_rt0', 'topack_nofsync', 'delete', 'repack', 'import_diff', 'import_same_stream', 'clean']
 # scenarios that switch the fsync defaults off are outside C06 ("with the default fsync settings")
-NON_DEFAULT_FSYNC = {'pack_nofsync', 'pack_nofsync_clean', 'topack_nofsync'}
+NON_DEFAULT_FSYNC = _NonDefaultFsync({'pack_nofsync', 'pack_nofsync_clean', 'topack_nofsync'})
 # scenarios that keep the default fsync settings and start from an undamaged state (C06)
 DAMAGED_PRE = {'clean_dups', 'add_damaged'}
